@@ -500,6 +500,29 @@ for _h, _lock in (('read_handle', 'rcu_read_lock'), ('write_handle', 'rcu_write_
         props='C05', requires=['!vf_exc'],
         ensures=[('C05', 'self->m_ptr == ptr && !self->m_accessed && !vf_exc', 'a fresh handle is not registered and has touched nothing')],
         assigns='*self')
+for _h in ('read_handle', 'write_handle'):
+    FN[r'rcu_guarded::%s::dtor' % _h] = dict(
+        props='C05 C13',
+        bounded='the guard of the handle is the only registered record (empty older log); the general log shapes are covered by the bounded check of rcu_guard::unlock',
+        cbmc_flags=['--unwind', '3', '--unwinding-assertions'],
+        harness=r'''
+  struct %%(L)s lst; vf_LST = &lst; g_env_off = 1;
+  lst.m_write_mutex.excl_me = 0; lst.m_write_mutex.shared_me = 0; lst.m_head.v = 0; lst.m_tail.v = 0;
+  struct rcu_guarded_rcu_list_vf_payload_%(H)s h;
+  h.m_ptr = &lst; h.m_guard.m_list = &lst;
+  struct %%(ZN)s *own = (struct %%(ZN)s *)__CPROVER_allocate(sizeof(struct %%(ZN)s), 0);
+  own->next.v = 0; own->owner.v = &h.m_guard; own->zombie_node = 0;
+  h.m_accessed = vf_nondet_bool();
+  if (h.m_accessed) { h.m_guard.m_zombie = own; g_own = own; lst.m_zombie_head.v = own; }
+  else { h.m_guard.m_zombie = 0; g_own = 0; lst.m_zombie_head.v = 0; }
+  _Bool was_accessed = h.m_accessed;
+  vf_exc = 0;
+  rcu_guarded_rcu_list_vf_payload_%(H)s__dtor(&h);
+  __CPROVER_assert(!vf_exc, "[C05] a handle destructor does not throw");
+  __CPROVER_assert(!was_accessed || (own->owner.v == 0 && g_owner_clears == 1),
+                   "[C05,C13] a handle that registered its guard releases it exactly once when it is destroyed (a record that stays owned blocks every later reclamation: leak)");
+  __CPROVER_assert(was_accessed || (g_owner_clears == 0 && g_atomic_ops == 0), "[C05] a handle that was never dereferenced never registered: its destructor touches nothing");
+''' % dict(H=_h) % D)
 FN[r'rcu_guarded::lock_(read|write)'] = dict(
     props='C05 C14', loop_free=True, requires=['!vf_exc && ' + FRESH],
     ensures=[('C05 C14', 'vf_ret->m_ptr == &self->m_obj && !vf_ret->m_accessed && !vf_exc && g_atomic_ops == 0', 'handing out a handle touches neither list nor log')],
